@@ -1,5 +1,6 @@
 import PRV.Proofs.C07
 import PRV.Proofs.C07Slow
+import PRV.Gen.C07
 /-
 C07 — Task queue served in order; a removed contract stops receiving hashrate.
 The model (`Model/Sched.lean`) is run against the real Scheduler/TaskList on every check; these are
@@ -510,6 +511,18 @@ theorem tasklist_cancel_spec (l : TaskList) (cid : String) (t0 : Task) (rest : L
 
 theorem tasklist_size (l : TaskList) (cid : String) (h : l.size = l.tasks.length) :
     (l.cancel cid).size = (l.cancel cid).tasks.length := cancel_size l cid h
+
+/-! ### the order in the source (regenerated from `Scheduler.taskLoop` on every run) -/
+
+/-- **the owner is told before the slot is freed**: in every `select` case of `taskLoop` that retires a task, `OnEnd` is
+called before `UnlockAndRemove` — the model's `retire` (report, then remove) in that order; a miner never looks free while
+the end notification of its task is still to come.  (Four such cases: removed / finished and past the deadline, before and
+after the destination change.) -/
+theorem source_onEnd_before_unlock :
+    ((PRV.Gen.C07.taskLoopBranches.filter (·.contains "UnlockAndRemove")).all
+        fun b => decide (b.idxOf "OnEnd" < b.idxOf "UnlockAndRemove")) = true ∧
+    (PRV.Gen.C07.taskLoopBranches.filter (·.contains "UnlockAndRemove")).length = 4 ∧
+    (PRV.Gen.C07.taskLoopBranches.filter (·.contains "OnEnd")).length = 6 := by decide
 
 /-! ### non-vacuity -/
 example : (run (init "p").1 [.add "c0" "d0" 1000 50, .add "c0" "d0" 1000 50, .add "c1" "d1" 5 60,
